@@ -239,7 +239,11 @@ def correspond(ctx, corr):
         for l in impl[i]:
             if l.startswith("throw"):
                 corr.count("impl_" + l.split()[1])
-        oracle(ctx, corr, stream, lines, impl[i], meta)
+        try:
+            oracle(ctx, corr, stream, lines, impl[i], meta)
+        except (IndexError, ValueError, KeyError, ZeroDivisionError) as ex:
+            corr.fail(f"implementation output of stream {stream} does not have the expected shape ({type(ex).__name__}: {ex})",
+                      {"stream": stream, "ops": lines[:3]}, "c10_cov:" + stream, "\n".join(l[:200] for l in impl[i][:3]))
 
     adj_stream(ctx, corr, exe)
     parse_stream(ctx, corr)
@@ -451,6 +455,12 @@ def adj_stream(ctx, corr, exe):
         cov = " ".join(cov_tokens(d, b, packed(C, b))) + " | " + " ".join(cov_tokens(1, 0, [1]))
         a_t = " ".join(H(v) for row in A for v in row)
         mal.append(([f"adj {alg} {d + 1} 1 | {a_t} | " + " ".join(H(v) for v in rhs) + " | " + cov for alg in ALGS], kind))
+    corpus = ctx.verif / "corpus" / "C10"
+    if corpus.exists():       # recorded failing inputs first: every line must be refused
+        for f in sorted(corpus.glob("adj-*.txt")):
+            for l in f.read_text().split("\n"):
+                if l.startswith("adj "):
+                    mal.insert(0, ([l.replace("adj envelope", "adj " + alg, 1) for alg in ALGS], "corpus:" + f.name))
     out, crashes = run_cases(exe, cases + [m[0] for m in mal])
     for i, (lines, meta) in enumerate(zip(cases, metas)):
         corr.case(key=f"adj {i} {meta['bands']}" if max(meta["bands"]) >= 1 else None)
@@ -485,31 +495,283 @@ def adj_stream(ctx, corr, exe):
                           {"stream": "adj", "ops": [l]}, "Homogenization::run", o)
 
 
+# ------------------------------------------------------------------ <cov-mat> documents: GKFparser vs Model/CovParse
+
+PARSE_MSG = [("not enough elements", "NotEnough"), ("too many elements", "TooMany"),
+             ("bad covariance matrix element", "BadElement"),
+             ("missing band-width of covariance matrix:", "BadBand"), ("missing band-width of covariance matrix", "MissingBand"),
+             ("bad dimension of covariance matrix:", "BadDim"), ("missing dimension of covariance matrix", "MissingDim"),
+             ("undefined attribute of", "UndefinedAttr"), ("not positive definite", "NotPD"),
+             ("T_GKF_cov_dim_differs", "DimDiffers"), ("without covariance matrix", "WithoutCov")]
+
+
+def dim_check_in_source(ctx, fn):
+    """does GKFparser::<fn> compare idim with the number of observations? (the model takes the same branch)"""
+    src = (ctx.repo / "lib/gnu_gama/xml/gkfparser.cpp").read_text(errors="replace")
+    m = re.search(r"int GKFparser::%s\(\)\s*\{(.*?)\n  \}" % fn, src, re.S)
+    if not m:
+        raise TieBroken("gkfparser.cpp", f"GKFparser::{fn} not found")
+    return bool(re.search(r"idim\s*!=\s*static_cast<int>\(\s*\w+->observation_list\.size\(\)\s*\)", m.group(1)))
+
+
+def gkf_doc(kind, n, cov_attrs, words):
+    """a small well determined network whose LAST cluster is the tested one with n observations"""
+    cov = ""
+    if cov_attrs is not None:
+        cov = "<cov-mat %s>\n%s\n</cov-mat>\n" % (cov_attrs, " ".join(words))
+    head = ('<?xml version="1.0" ?>\n<gama-local xmlns="http://www.gnu.org/software/gama/gama-local">\n'
+            '<network axes-xy="ne" angles="left-handed">\n<parameters sigma-apr="10" conf-pr="0.95" tol-abs="1000" sigma-act="apriori"/>\n'
+            '<points-observations distance-stdev="5">\n')
+    tail = "</points-observations>\n</network>\n</gama-local>\n"
+    if kind == "hdiffs":
+        body = ('<point id="A" z="100" fix="z"/>\n<point id="B" z="103" fix="z"/>\n<point id="P" adj="z"/>\n<point id="Q" adj="z"/>\n'
+                '<height-differences>\n<dh from="A" to="P" val="1.001" stdev="2"/>\n<dh from="P" to="Q" val="0.999" stdev="2"/>\n'
+                '<dh from="Q" to="B" val="1.002" stdev="2"/>\n</height-differences>\n<height-differences>\n')
+        edges = [("A", "P", 1.0), ("P", "Q", 1.0), ("Q", "B", 1.0), ("A", "Q", 2.0), ("P", "B", 2.0), ("A", "B", 3.0)]
+        for i in range(n):
+            a, b, v = edges[i % len(edges)]
+            body += '<dh from="%s" to="%s" val="%.4f"%s/>\n' % (a, b, v + 0.0001 * i, "" if cov_attrs is not None else ' stdev="3"')
+        body += cov + "</height-differences>\n"
+    elif kind == "obs":
+        body = ('<point id="A" x="0" y="0" fix="xy"/>\n<point id="B" x="100" y="0" fix="xy"/>\n<point id="C" x="50" y="80" adj="xy"/>\n'
+                '<obs from="A">\n<distance to="C" val="94.340" stdev="5"/>\n<distance from="B" to="C" val="94.341" stdev="5"/>\n</obs>\n<obs from="A">\n')
+        for i in range(n):
+            fr = ("A", "B")[i % 2]
+            body += '<distance from="%s" to="C" val="%.4f"%s/>\n' % (fr, 94.3398 + 0.0002 * i, "" if cov_attrs is not None else ' stdev="4"')
+        body += cov + "</obs>\n"
+    elif kind == "coords":
+        body = ('<point id="A" x="0" y="0" fix="xy"/>\n<point id="B" x="100" y="0" fix="xy"/>\n<point id="C" x="50" y="80" adj="xy"/>\n'
+                '<point id="D" x="20" y="30" adj="xy"/>\n'
+                '<obs from="A">\n<distance to="C" val="94.340" stdev="5"/>\n<distance from="B" to="C" val="94.341" stdev="5"/>\n'
+                '<distance from="A" to="D" val="36.056" stdev="5"/>\n<distance from="B" to="D" val="85.440" stdev="5"/>\n</obs>\n<coordinates>\n')
+        pts = [("C", 50.001, 80.002), ("D", 20.001, 29.999)]
+        for i in range(n // 2):
+            pid, x, y = pts[i % 2]
+            body += '<point id="%s" x="%.4f" y="%.4f"/>\n' % (pid, x, y)
+        body += cov + "</coordinates>\n"
+    else:
+        body = ('<point id="A" x="0" y="0" z="10" fix="xyz"/>\n<point id="C" x="50" y="80" z="20" adj="xyz"/>\n<point id="D" x="20" y="30" z="15" adj="xyz"/>\n'
+                '<vectors>\n<vec from="A" to="C" dx="50.001" dy="80.001" dz="10.001"/>\n<vec from="A" to="D" dx="20.001" dy="30.001" dz="5.001"/>\n'
+                '<cov-mat dim="6" band="0">25 25 25 25 25 25</cov-mat>\n</vectors>\n<vectors>\n')
+        vs = [("A", "C", 50.0, 80.0, 10.0), ("C", "D", -30.0, -50.0, -5.0)]
+        for i in range(n // 3):
+            a, b, dx, dy, dz = vs[i % 2]
+            body += '<vec from="%s" to="%s" dx="%.4f" dy="%.4f" dz="%.4f"/>\n' % (a, b, dx + 0.002, dy - 0.001, dz + 0.001)
+        body += cov + "</vectors>\n"
+    return head + body + tail
+
+
 def parse_stream(ctx, corr):
-    pass
+    from props import c10_net
+    rng = ctx.rng
+    gdir = ctx.build_gama(sanitize=False, targets=("gama-local",))
+    exe = gdir / "gama-local"
+    dc = {"obs": True, "hdiffs": True, "coords": True, "vectors": True}     # the model is the guarded code (see translate)
+    corr.count("parser_dim_check_obs", int(dim_check_in_source(ctx, "finish_obs")))
+    corr.count("parser_dim_check_hdiffs", int(dim_check_in_source(ctx, "finish_hdiffs")))
+    # regression inputs of finding F9 (fixed in 410fb36): must be refused by the parser with the dim diagnostic
+    corpus = ctx.verif / "corpus" / "C10"
+    f9 = sorted(corpus.glob("net-f9-*.gkf")) if corpus.exists() else []
+    cases = []
+    nper = ctx.size(36, 300)
+    for kind in ("obs", "hdiffs", "coords", "vectors"):
+        unit = {"obs": 1, "hdiffs": 1, "coords": 2, "vectors": 3}[kind]
+        for c in range(nper):
+            n = unit * rng.randint(1, {1: 4, 2: 2, 3: 2}[unit])
+            mode = rng.choice(["good", "good", "dim-", "dim+", "few", "many", "badel", "band=dim", "band>dim", "nopd",
+                               "nodim", "noband", "baddim", "undef", "nocov"])
+            dim = n
+            if mode == "dim-":
+                dim = max(1, n - 1) if n > 1 else n + 1
+            elif mode == "dim+":
+                dim = n + 1
+            band = rng.randint(0, dim - 1)
+            if mode == "band=dim":
+                band = dim
+            elif mode == "band>dim":
+                band = dim + 2
+            bb = min(band, dim - 1)
+            cnt = dim * (bb + 1) - bb * (bb + 1) // 2
+            if mode == "few":
+                cnt = max(0, cnt - rng.randint(1, 2))
+            elif mode == "many":
+                cnt += rng.randint(1, 2)
+            words, k = [], 0
+            for i in range(1, dim + 1):
+                for j in range(i, min(dim, i + bb) + 1):
+                    if mode == "nopd":
+                        words.append("1" if i == j else "7")
+                    else:
+                        words.append("25" if i == j else ("1" if j == i + 1 else "0.5"))
+            if mode == "nopd" and (bb == 0 or dim == 1):
+                words[rng.randrange(len(words))] = rng.choice(["0", "-4"])
+            words = (words + ["25"] * 3)[:cnt] if cnt > len(words) else words[:cnt]
+            if mode == "badel" and words:
+                words[rng.randrange(len(words))] = rng.choice(["abc", "1e", "--3", "1,5"])
+            da, ba = str(dim), str(band)
+            attrs = f'dim="{dim}" band="{band}"'
+            undef = 0
+            if mode == "nodim":
+                attrs, da = f'band="{band}"', "m"
+            elif mode == "noband":
+                attrs, ba = f'dim="{dim}"', "m"
+            elif mode == "baddim":
+                attrs, da = f'dim="x{dim}" band="{band}"', "b"
+            elif mode == "undef":
+                attrs, undef = attrs + ' foo="1"', 1
+            if mode == "nocov":
+                if kind in ("coords", "vectors"):
+                    # </coordinates> without <cov-mat>: finish_coords is never reached (endElement has no case for
+                    # state_coords -> state_error with EMPTY text, line 0): C11's automaton, not compared here
+                    corr.count("parse_skipped_nocov_coords")
+                    continue
+                attrs = None
+            gkf = gkf_doc(kind, n, attrs, words)
+            wt = " ".join(("bad" if not re.match(r"^-?\d+(\.\d+)?$", w) else str(Fraction(w))) for w in words)
+            if kind in ("obs", "hdiffs"):
+                sig = "4" if kind == "obs" else "3"
+                third = " ".join(f"{sig} 0" for _ in range(n))
+            else:
+                third = str(n)
+            if attrs is None:
+                line = f"covparse {kind} {int(dc[kind])} 1 0 none 0 | | {third}"
+            else:
+                line = f"covparse {kind} {int(dc[kind])} 1 {undef} {da} {ba} | {wt} | {third}"
+            cases.append({"kind": kind, "n": n, "dim": dim, "band": band, "mode": mode, "gkf": gkf, "line": line,
+                          "has_cov": attrs is not None})
+    import concurrent.futures
+    import tempfile
+    import shutil
+    tmp = tempfile.mkdtemp(prefix="c10parse-")
+    try:
+        with concurrent.futures.ThreadPoolExecutor(max_workers=16) as ex:
+            futs = [ex.submit(c10_net._run_one, exe, tmp, f"p{i}", c["gkf"], "gso") for i, c in enumerate(cases)]
+            res = [f.result() for f in futs]
+    finally:
+        shutil.rmtree(tmp, ignore_errors=True)
+    import tempfile as _tf
+    with _tf.TemporaryDirectory(prefix="c10f9-") as t9:
+        for f in f9:
+            r = c10_net._run_one(exe, t9, f.stem, f.read_text(), "gso")
+            corr.case(key="corpus:" + f.name)
+            corr.count("stream_parse_corpus_f9")
+            ok = bool(r["error"]) and "ParserError" in (r["error"]["category"] or "") and "T_GKF_cov_dim_differs" in r["error"]["text"] \
+                and r["error"]["line"] is not None
+            if not ok:
+                kind = "hdiffs" if "hdiffs" in f.name else "obs"
+                corr.fail(f"F9 regression: {f.name} (cov-mat dim differs from the number of observations) is not refused by the parser "
+                          f"with a located dimension diagnostic", {"stream": "covparse", "gkf": f.read_text(), "kind": kind},
+                          "GKFparser::finish_" + kind, c10_net._outcome(r))
+    model, mcr = run_cases(ctx.driver("drv_cov"), [[c["line"]] for c in cases])
+    f9_reported = set()
+    for i, c in enumerate(cases):
+        r = res[i]
+        if r["error"] and "ParserError" in (r["error"]["category"] or ""):
+            txt = r["error"]["text"]
+            impl = next(("err " + name for key, name in PARSE_MSG if key in txt), "err ?" + txt[:60])
+            has_line = r["error"]["line"] is not None
+        else:
+            impl, has_line = "ok", None
+        mo = model[i][0] if model[i] else "<none>"
+        mo_s = "ok" if mo.startswith("ok") else mo
+        corr.case(key=f"parse {c['kind']} {c['n']} {c['dim']} {c['band']} {c['mode']}" if c["has_cov"] else None)
+        corr.count("stream_parse")
+        corr.count("parse_" + (impl.split()[1] if impl.startswith("err") else "accepted"))
+        if impl != mo_s:
+            corr.disagree("covparse", [c["line"], c["gkf"]], [impl, c10_net._outcome(r)], [mo])
+        if impl.startswith("err") and not has_line:
+            corr.fail("parser diagnostic for a malformed <cov-mat> carries no line number", {"stream": "covparse", "gkf": c["gkf"]},
+                      "GKFparser::finish_cov", c10_net._outcome(r))
+        # the property: an accepted <cov-mat> has dim = number of observations of the cluster
+        if impl == "ok" and c["has_cov"] and c["dim"] != c["n"]:
+            site = {"obs": "GKFparser::finish_obs", "hdiffs": "GKFparser::finish_hdiffs", "coords": "GKFparser::finish_coords",
+                    "vectors": "GKFparser::finish_vectors"}[c["kind"]]
+            if (site, c["dim"] < c["n"]) not in f9_reported:
+                f9_reported.add((site, c["dim"] < c["n"]))
+                corr.fail(f"F9: <cov-mat dim={c['dim']}> accepted for a cluster of {c['n']} observations "
+                          f"({'<obs>' if c['kind'] == 'obs' else '<height-differences>' if c['kind'] == 'hdiffs' else c['kind']}); "
+                          f"gama-local then: {c10_net._outcome(r)[:160]}",
+                          {"stream": "covparse", "gkf": c["gkf"], "kind": c["kind"], "dim": c["dim"], "n": c["n"]}, site,
+                          c10_net._outcome(r))
+            corr.count("f9_accepted_dim_mismatch")
 
 
 def net_stream(ctx, corr):
-    pass
+    from props import c10_net
+    gdir = ctx.build_gama(sanitize=False, targets=("gama-local",))
+    c10_net.run(ctx, corr, gdir, ctx.size(40, 400), include_f9=True, include_tiny=True, probe=True)
+
+
+def search(ctx, broken, corr):
+    """a broken tie without an oracle failure: the disagreeing operation itself is the concrete input on which the
+    implementation deviates from the model the theorems are about (exact at Rat / bit-exact for data movement)"""
+    out = []
+    for d in corr.disagreements[:5]:
+        if d["stream"] == "covparse":
+            payload = {"stream": "covparse", "model_op": d["case"][0], "gkf": d["case"][1], "impl": d["impl"], "model": d["model"]}
+            site = "GKFparser::finish_cov"
+        else:
+            payload = {"stream": d["stream"], "ops": d["case"], "impl": d["impl"], "model": d["model"]}
+            site = {"idx": "CovMat::operator[]", "bandidx": "BandMat::operator()", "chol": "CovMat::cholDec",
+                    "malformed": "CovMat::cholDec", "fwd": "Adj::forwardSubstitution", "active": "Cluster::activeCov",
+                    "scale": "Cluster::scaleCov", "blockdiag": "BlockDiagonal::cholDec"}.get(d["stream"], d["stream"])
+        out.append(Failure(f"implementation deviates from the verified model (stream {d['stream']}): impl {str(d['impl'])[:120]} "
+                           f"vs model {str(d['model'])[:120]}", payload, site, d.get("why", "")))
+    return out
 
 
 def classify(ctx, failure):
-    if failure.site == "Homogenization::run" and "not refused" in failure.what:
-        return "C10-HOM"
-    if failure.site in ("GKFparser::finish_obs", "GKFparser::finish_hdiffs"):
-        return "F9"
+    """known findings are matched by call site + mechanism signature of the failing case, never by property id"""
+    inp = failure.replay if isinstance(failure.replay, dict) else {}
+    # C10-TINY: only the tiny-variance family, only the envelope algorithm deviates (or refuses with the
+    # Homogenization message) on the `tiny` variant while the rescaled reference and the other algorithms agree
+    if failure.site == "Homogenization::run" and inp.get("oracle") == "c10_net" and inp.get("family") == "tiny":
+        lines = [l for l in (failure.detail or "").splitlines() if l.strip()]
+        if lines and all(l.startswith("tiny/envelope:") for l in lines):
+            return "C10-TINY"
     return None
 
 
+def translate(ctx):
+    """the model of finish_obs / finish_hdiffs contains the dimension guard of 410fb36; it must be in the source"""
+    missing = [fn for fn in ("finish_obs", "finish_hdiffs") if not dim_check_in_source(ctx, fn)]
+    if missing:
+        raise TieBroken("GKFparser dim guard", "no `idim != observation_list.size()` guard in " + ", ".join(missing) +
+                        " (lib/gnu_gama/xml/gkfparser.cpp); Model/CovParse.finishObs/finishHdiffs model the guarded code")
+
+
 def replay(ctx, payload):
+    """re-run a recorded failing input on the current tree; 1 = still fails"""
     f = payload.get("failure") or {}
     inp = f.get("input") or {}
-    print(json.dumps(f, indent=1)[:3000])
+    print(json.dumps({k: v for k, v in f.items() if k != "input"}, indent=1)[:2000])
+    if inp.get("oracle") == "c10_net":
+        from props import c10_net
+        fails, text = c10_net.replay_case(ctx.build_gama(sanitize=False, targets=("gama-local",)), inp)
+        print(text[:4000])
+        return 1 if fails else 0
+    if "gkf" in inp:
+        from props import c10_net
+        import tempfile
+        gdir = ctx.build_gama(sanitize=False, targets=("gama-local",))
+        with tempfile.TemporaryDirectory() as tmp:
+            rc = 0
+            for alg in ALGS:
+                r = c10_net._run_one(gdir / "gama-local", tmp, "replay_" + alg, inp["gkf"], alg)
+                o = c10_net._outcome(r)
+                print(alg, ":", o)
+                if not (r["error"] and "ParserError" in (r["error"]["category"] or "")):
+                    rc = 1       # not refused by the parser
+        return rc
     if "ops" in inp:
         exe = ctx.build_cpp("c10_cov", [ctx.verif / "harness" / "c10_cov.cpp"] + [ctx.repo / s for s in SRC])
         out, crashes = run_cases(exe, [inp["ops"]])
-        print("\n".join(out[0]))
-        return 1
+        mod, _ = run_cases(ctx.driver("drv_cov"), [inp["ops"]])
+        for l, a, b in zip(inp["ops"], out[0], mod[0] + [""] * len(out[0])):
+            print("op   :", l[:300]); print("impl :", a[:300]); print("model:", b[:300])
+        if inp.get("stream") == "adj":
+            return 0 if all(o.startswith("throw") for o in out[0]) else 1
+        return 1 if (crashes or out[0] != mod[0]) else 0
     return 0
 
 
@@ -525,6 +787,6 @@ TRUSTED = ["harness/c10_cov.cpp (test Observation type for Cluster<Observation>)
 MODELLED = ["IEEE rounding in the Cholesky kernels (proved over ordered fields with sqrt; executed at Rat and Float)",
             "toDouble / toIndex / white-space splitting of <cov-mat> character data (input abstraction, owned by C11)",
             "Cluster::act_dim caching (activeCov model recomputes it; update() is called by every caller chain)",
-            "pointer walk of BlockDiagonal::cholDec / UpperBlockDiagonal is modelled with raw offsets and compared, "
-            "its equality with the indexed form is proved for CovMat::cholDec only"]
+            "BlockDiagonal::cholDec / UpperBlockDiagonal / Homogenization sweep: modelled with raw offsets and compared with the "
+            "C++ and with the dense path; see notes/reports/C10.md for which refinement lemmas are proved"]
 ASSUMPTIONS = ["covariance blocks have 0 <= band < dim (established by GKFparser::process_cov and Cluster::activeCov, proved)"]
